@@ -4,6 +4,7 @@ import numpy as np
 from .. import env  # noqa: F401
 from ..core import Phase, Result
 from .. import snapshot, spans
+from ..represent import Rep
 from ..util import attempt, same_array
 
 from fsic.core import VectorContainer
@@ -106,7 +107,9 @@ def check_case(case):
         b = spans.dec_label(case['b']) if case['b'] is not None else None
         s = case['s']
         want_pos = positions(labs, a, b, s)
-        sl = slice(a, b, s)
+        rep = Rep(case.get('rep'))
+        sl = slice(a, b, rep.int(s))       # the step as a NumPy integer is the same step
+        rep.tag(res)
         res.nontrivial = (a is not None and b is not None and s not in (None, 1)) or desc['k'] != 'range' or want_pos == 'absent'
         if op == 'get-slice':
             out = attempt(lambda: c['X', sl])
@@ -189,6 +192,7 @@ def check_case(case):
 def gen_all(max_len):
     def gen():
         i = 0
+        nrep = 0
         for desc in spans.catalogue(max_len):
             labs = spans.labels(desc)
             kind = 'model' if i % 4 == 3 else 'container'
@@ -207,6 +211,10 @@ def gen_all(max_len):
                     for s in (None, 1, 2, 3):
                         for op in ('get-slice', 'set-slice'):
                             yield {'span': desc, 'kind': kind, 'op': op, 'a': a, 'b': b, 's': s}
+                        if s in (2, 3) and (a is not None or b is not None):
+                            nrep += 1
+                            yield {'span': desc, 'kind': kind, 'op': ('get-slice', 'set-slice')[nrep % 2], 'a': a, 'b': b, 's': s,
+                                   'rep': [1 + nrep % 3]}
             for lab in [spans.enc_label(x) for x in labs]:
                 for j, w in enumerate(('attribute', 'name-key', 'position', 'label', 'label-slice')):
                     yield {'span': desc, 'kind': kind, 'op': 'paths', 'label': lab, 'w': w}
